@@ -10,7 +10,7 @@ Tie: correspondence, two parts.
 import json
 
 from harness.lib import common
-from harness.corr import c06_int, c06_txt, c06_gen
+from harness.corr import c06_int, c06_txt, c06_gen, c06_corpus
 
 PROP = "C06"
 
@@ -22,22 +22,31 @@ def search(chk):
     if binary is None:
         raise common.InfraError("intcodec driver does not compile: " + log[-2000:])
     c06_int.run_int(chk, "quick", False, binary, seed_tag="C06-search-int")
+    run_txt(chk, "quick", False, "C06-search-txt")
     return len(chk.violations) - before
 
 
 def run_txt(chk, tier, model_ok, tag):
     r = common.rng(tag)
-    mods = [c06_txt.pinned_f1(), c06_txt.pinned_f13(), c06_txt.pinned_array(), c06_txt.pinned_enum()]
-    n_mod = 10 if tier == "quick" else 120
+    c06_corpus.run_corpus(chk, tier)
+    mods = [c06_txt.pinned_f1(), c06_txt.pinned_f13(), c06_txt.pinned_array(), c06_txt.pinned_enum(),
+            c06_txt.pinned_anon_skip()]
+    n_mod = 8 if tier == "quick" else 100
     for i in range(n_mod):
         mods.append((c06_gen.gen_module(r, "m%d" % i), "generated", None))
-    c06_txt.run_modules(chk, mods, 3 if tier == "quick" else 8, r, model_ok, tier)
+    c06_txt.run_modules(chk, mods, 2 if tier == "quick" else 6, r, model_ok, tier)
+    if tier == "thorough":
+        # second runtime code path (portable byte loops) and second compiler, on a subset
+        c06_txt.run_modules(chk, mods[:17], 2, r, model_ok, tier, compiler="g++",
+                            defines=("EMBOSS_NO_OPTIMIZATIONS",), opt="-O1")
+        chk.extra["second_code_path"] = "g++ -O1 -DEMBOSS_NO_OPTIMIZATIONS on the pinned + first 12 generated modules"
 
 
 def run(tier):
     chk = common.Check(PROP, tier, exes=["model_c06"])
     chk.cov["rule"] = ("INTCODEC: distinct (type, value, base, grouping) written and read back, distinct "
-                       "(type, text) decoded, distinct texts tokenized")
+                       "(type, text) decoded, distinct texts tokenized; TXT: distinct (module, struct, Ok buffer, "
+                       "option set) whose view was Ok and went through WriteToString + UpdateFromText")
     import time
     t0 = time.time()
     model_ok = common.proof_gate(chk, search)
